@@ -29,7 +29,14 @@ for sid in sorted(os.listdir(os.path.join(V, 'seeded'))):
             'caught_by': caught, 'not_caught_by': missed}
     json.dump(meta, open(os.path.join(d, 'meta.json'), 'w'), indent=1, ensure_ascii=False)
     rows.append((sid, valid, caught, missed, title))
-print("| Change | Valid seed | Caught by (quick tier) | Ran clean | What it is |")
-print("|---|---|---|---|---|")
+lines = ["| Change | Valid seed | Caught by (quick tier) | Ran clean | What it is |", "|---|---|---|---|---|"]
 for sid, valid, caught, missed, title in rows:
-    print(f"| {sid} | {'yes' if valid else 'NO'} | {', '.join(caught) or '—'} | {', '.join(missed) or '—'} | {title[:110]} |")
+    lines.append(f"| {sid} | {'yes' if valid else 'NO'} | {', '.join(caught) or '—'} | {', '.join(missed) or '—'} | {title[:110].replace('|', '/')} |")
+table = "\n".join(lines)
+print(table)
+dp = os.path.join(V, 'DESIGN.md')
+d = open(dp, encoding='utf-8').read()
+a, b = '<!-- SEEDED_TABLE_BEGIN -->', '<!-- SEEDED_TABLE_END -->'
+if a in d and b in d:
+    d = d[:d.index(a) + len(a)] + "\n" + table + "\n" + d[d.index(b):]
+    open(dp, 'w', encoding='utf-8').write(d)
